@@ -1,7 +1,7 @@
 (* C17: decision rules of SPDCConfig::try_as_spdc on the L4 model (Model/Config.v), for an ARBITRARY numeric carrier,
    arbitrary numeric operations and ARBITRARY oracles: the theorems only use the order of operations. *)
 From Coq Require Import String List Bool ZArith QArith.
-From SpdVerif Require Import Base.CfgNumOps Spec.ConfigSpec Gen.ConfigTables Model.ConfigTypes Model.Config.
+From SpdVerif Require Import Base.CfgNumOps Spec.ConfigSpec Gen.ConfigTables Gen.ConfigSites Model.ConfigTypes Model.Config Proofs.Cfg_flags_tac.
 Import ListNotations.
 
 Section Rules.
@@ -32,13 +32,17 @@ Section Rules.
     destruct (bc_theta_deg b), (bc_theta_ext_deg b); intros [[H1 H2] | [H1 H2]]; try reflexivity; congruence.
   Qed.
 
-  Lemma beam_of_cfg_err pol b cs e : beam_of_cfg o K pol b cs = Err e -> e = EThetaSpec /\ angle_spec_bad b.
+  Lemma beam_of_cfg_err pol b cs e : beam_of_cfg o K pol b cs = Err e ->
+    (e = EThetaSpec /\ angle_spec_bad b) \/ (e = EExternalRange /\ cfg_checks_external_range = true).
   Proof.
     unfold beam_of_cfg, angle_spec_bad, set_theta_external.
     destruct (bc_theta_deg b), (bc_theta_ext_deg b); try discriminate.
-    - intros H; inversion H; split; [reflexivity | left; split; discriminate].
-    - destruct (o_snell_inv K _ _ _); discriminate.
-    - intros H; inversion H; split; [reflexivity | right; split; reflexivity].
+    - intros H; inversion H; left; split; [reflexivity | left; split; discriminate].
+    - destruct cfg_checks_external_range; cbn [andb].
+      + destruct (negb _); [intros H; inversion H; right; split; reflexivity |].
+        destruct (o_snell_inv K _ _ _); discriminate.
+      + destruct (o_snell_inv K _ _ _); discriminate.
+    - intros H; inversion H; left; split; [reflexivity | right; split; reflexivity].
   Qed.
 
   Theorem rule_signal_angles c : angle_spec_bad (c_signal c) -> try_as_spdc c = Err EThetaSpec.
@@ -54,7 +58,7 @@ Section Rules.
     unfold beam_of_cfg, set_theta_external.
     destruct (bc_theta_deg b), (bc_theta_ext_deg b); try discriminate.
     - intros H; inversion H; subst; cbn; auto.
-    - destruct (o_snell_inv K _ _ _); try discriminate. intros H; inversion H; subst; cbn; auto.
+    - flag_cases; try discriminate. destruct (o_snell_inv K _ _ _); try discriminate. intros H; inversion H; subst; cbn; auto.
   Qed.
 
   (* ---------------------------------------------------------------------------------------------------------------
@@ -101,7 +105,8 @@ Section Rules.
         if rj && neqb o pu (n0 o) then try_as_spdc c = Err EBadPeriod else try_as_spdc c = Panic SiteComputeSignUnwrap
     | PCOff =>
         match cc_theta_deg (c_crystal c) with
-        | Auto => try_as_spdc c = Panic SiteOptThetaUnwrap \/ try_as_spdc c = Panic SiteNelderMeadUnwrap
+        | Auto => try_as_spdc c = Panic SiteOptThetaUnwrap \/ try_as_spdc c = Panic SiteNelderMeadUnwrap \/
+                  try_as_spdc c = Err ETotalReflection
         | Param _ =>
             match c_idler c with
             | Auto => try_as_spdc c = Err ESignalLePump
@@ -121,8 +126,8 @@ Section Rules.
     destruct (c_pp c) as [| per a].
     - cbn [bind fst]. unfold Config.theta_step. cbn [is_pol_off].
       destruct (cc_theta_deg (c_crystal c)) as [| t]; cbn [is_auto].
-      + unfold optimum_theta. destruct (o_snell_ext K signal _); [| right; reflexivity].
-        fold (Config.cfg_pump o c). rewrite Hle. left. reflexivity.
+      + unfold optimum_theta, ext_defined. destruct (o_snell_ext K signal _); flag_cases; cbn [bind]; auto.
+        all: fold (Config.cfg_pump o c); rewrite ?Hle; auto.
       + cbn [bind]. unfold Config.idler_step. destruct (c_idler c) as [| ic].
         * unfold idler_optimum. rewrite Hle. reflexivity.
         * destruct (beam_of_cfg o K _ ic _) as [b | e | s]; reflexivity.
@@ -177,7 +182,7 @@ Section Rules.
   Lemma beam_of_cfg_no_panic pol b cs : searches_total -> is_panic (beam_of_cfg o K pol b cs) = false.
   Proof.
     intros [H1 _]. unfold beam_of_cfg, set_theta_external.
-    destruct (bc_theta_deg b), (bc_theta_ext_deg b); try reflexivity.
+    destruct (bc_theta_deg b), (bc_theta_ext_deg b); try reflexivity. flag_cases; try reflexivity.
     specialize (H1 (beam_new o pol (nmul o (bc_phi_deg b) (u_deg o)) (n0 o) (nmul o (bc_wavelength_nm b) (u_nano o))
                            (nmul o (bc_waist_um b) (u_micro o))) (nmul o n (u_deg o)) cs).
     destruct (o_snell_inv K _ _ _); [reflexivity | congruence].
@@ -189,10 +194,12 @@ Section Rules.
     (forall b e cs, o_snell_inv K b e cs <> None) /\
     (forall signal, signal_step c = Ok signal ->
        (is_auto (cc_theta_deg (c_crystal c)) = true -> c_pp c = PCOff ->
-          o_snell_ext K signal (cfg_cs0 c) <> None /\
+          (* a signal beyond total internal reflection is an error, not a panic, once the code checks it *)
+          (cfg_checks_total_reflection = false -> o_snell_ext K signal (cfg_cs0 c) <> None) /\
           (forall e, o_snell_ext K signal (cfg_cs0 c) = Some e ->
                      o_nm_theta K (erase_theta o (cfg_cs0 c)) e signal (cfg_pump c) <> None)) /\
-       (forall a, c_pp c = PCConfig Auto a -> o_nm_period K signal (cfg_pump c) (cfg_cs0 c) <> None)).
+       (* a period search that finds nothing is an error, not a panic, once the solver cannot fail *)
+       (forall a, c_pp c = PCConfig Auto a -> searches_cannot_fail = false -> o_nm_period K signal (cfg_pump c) (cfg_cs0 c) <> None)).
 
   Lemma searches_total_at c : searches_total -> searches_defined_at c.
   Proof. intros (H1 & H2 & H3 & H4). split; [exact H1 |]. intros signal _. repeat split; intros; auto. Qed.
@@ -200,7 +207,7 @@ Section Rules.
   Lemma beam_of_cfg_no_panic' pol b cs : (forall b e cs, o_snell_inv K b e cs <> None) -> is_panic (beam_of_cfg o K pol b cs) = false.
   Proof.
     intros H1. unfold beam_of_cfg, set_theta_external.
-    destruct (bc_theta_deg b), (bc_theta_ext_deg b); try reflexivity.
+    destruct (bc_theta_deg b), (bc_theta_ext_deg b); try reflexivity. flag_cases; try reflexivity.
     specialize (H1 (beam_new o pol (nmul o (bc_phi_deg b) (u_deg o)) (n0 o) (nmul o (bc_wavelength_nm b) (u_nano o))
                            (nmul o (bc_waist_um b) (u_micro o))) (nmul o n (u_deg o)) cs).
     destruct (o_snell_inv K _ _ _); [reflexivity | congruence].
@@ -221,15 +228,15 @@ Section Rules.
       destruct per as [| pu].
       - unfold optimum_poling_period. rewrite Hle. destruct (neqb o _ _); [reflexivity |].
         specialize (Hper0 a eq_refl).
-        destruct (o_nm_period K _ _ _); [| congruence].
-        destruct (_ || _); reflexivity.
+        destruct (o_nm_period K _ _ _); [destruct (_ || _); reflexivity |].
+        destruct searches_cannot_fail; [reflexivity | exfalso; apply Hper0; reflexivity].
       - destruct (rj && neqb o pu (n0 o)); [reflexivity |]. unfold compute_sign. rewrite Hle. reflexivity. }
     assert (Hoff : forall pp nf, poling_step c signal = Ok (pp, nf) -> is_pol_off pp = true -> c_pp c = PCOff).
     { intros pp nf. unfold Config.poling_step, poling_of_cfg. destruct (c_pp c) as [| [| pu] a]; [reflexivity | |].
       - unfold optimum_poling_period. destruct (le_pump signal (cfg_pump c)); cbn [bind]; try discriminate.
         destruct (neqb o _ _); cbn [bind].
         + intros H; inversion H; subst. discriminate.
-        + destruct (o_nm_period K _ _ _); cbn [bind]; try discriminate. destruct (_ || _); cbn [bind]; try discriminate.
+        + destruct (o_nm_period K _ _ _); flag_cases; cbn [bind]; try discriminate. destruct (_ || _); cbn [bind]; try discriminate.
           intros H; inversion H; subst. unfold poling_new. destruct (nltb o (n0 o) _); discriminate.
       - destruct (rj && neqb o pu (n0 o)); [discriminate |].
         destruct (compute_sign o K signal (cfg_pump c) (cfg_cs0 c)); cbn [bind]; try discriminate.
@@ -238,9 +245,10 @@ Section Rules.
     assert (Hth : is_panic (theta_step c signal pp) = false).
     { unfold Config.theta_step. destruct (is_auto _) eqn:Hau; [| reflexivity]. destruct (is_pol_off pp) eqn:Hpo; [| reflexivity].
       destruct (Hth0 eq_refl (Hoff pp nf eq_refl Hpo)) as [H2 H3].
-      unfold optimum_theta. destruct (o_snell_ext K _ _) as [e |]; [| congruence].
-      rewrite Hle. specialize (H3 e eq_refl).
-      destruct (o_nm_theta K _ _ _ _); [reflexivity | congruence]. }
+      unfold optimum_theta, ext_defined. destruct (o_snell_ext K _ _) as [e |]; cbn [negb]; rewrite ?andb_false_r, ?andb_true_r.
+      - rewrite Hle. specialize (H3 e eq_refl).
+        destruct (o_nm_theta K _ _ _ _); [reflexivity | congruence].
+      - destruct cfg_checks_total_reflection; [reflexivity | exfalso; apply H2; reflexivity]. }
     destruct (theta_step c signal pp) as [cs | |]; cbn [bind is_panic] in *; try reflexivity; try discriminate.
     unfold Config.idler_step. destruct (c_idler c) as [| ic].
     - unfold idler_optimum. rewrite Hle. destruct (o_idler_theta K _ _ _ _); reflexivity.
@@ -254,6 +262,48 @@ Section Rules.
     is_panic (try_as_spdc c) = false.
   Proof. intros Htot. apply no_panic_at. apply searches_total_at. exact Htot. Qed.
 
+  (* where each step can panic *)
+  Lemma beam_of_cfg_panic pol b cs s : beam_of_cfg o K pol b cs = Panic s -> s = SiteNelderMeadUnwrap.
+  Proof.
+    unfold beam_of_cfg, set_theta_external.
+    destruct (bc_theta_deg b), (bc_theta_ext_deg b); try discriminate. flag_cases; try discriminate.
+    destruct (o_snell_inv K _ _ _); try discriminate. intros H; inversion H; reflexivity.
+  Qed.
+
+  Lemma poling_step_panic c signal s : poling_step c signal = Panic s ->
+    s = SiteNelderMeadUnwrap \/ (le_pump signal (cfg_pump c) = true /\ (s = SiteOptPeriodUnwrap \/ s = SiteComputeSignUnwrap)).
+  Proof.
+    unfold Config.poling_step, poling_of_cfg. destruct (c_pp c) as [| [| pu] a]; try discriminate.
+    - unfold optimum_poling_period. destruct (le_pump signal (cfg_pump c)); cbn [bind].
+      + intros H; inversion H. right. split; [reflexivity | left; reflexivity].
+      + destruct (neqb o _ _); cbn [bind]; try discriminate.
+        destruct (o_nm_period K _ _ _); flag_cases; cbn [bind]; try discriminate.
+        * destruct (_ || _); discriminate.
+        * intros H; inversion H. left; reflexivity.
+    - destruct (rj && neqb o pu (n0 o)); try discriminate.
+      unfold compute_sign. destruct (le_pump signal (cfg_pump c)); cbn [bind]; try discriminate.
+      intros H; inversion H. right. split; [reflexivity | right; reflexivity].
+  Qed.
+
+  Lemma theta_step_panic c signal pp s : theta_step c signal pp = Panic s ->
+    s = SiteNelderMeadUnwrap \/ (le_pump signal (cfg_pump c) = true /\ s = SiteOptThetaUnwrap).
+  Proof.
+    unfold Config.theta_step. destruct (is_auto _); try discriminate. destruct (is_pol_off pp); try discriminate.
+    unfold optimum_theta, ext_defined. destruct (o_snell_ext K _ _); flag_cases; cbn [bind]; try discriminate.
+    - destruct (le_pump signal (cfg_pump c)); cbn [bind].
+      + intros H; inversion H. right; split; reflexivity.
+      + destruct (o_nm_theta K _ _ _ _); cbn [bind]; try discriminate. intros H; inversion H. left; reflexivity.
+    - intros H; inversion H. left; reflexivity.
+  Qed.
+
+  Lemma idler_step_panic c signal cs pp s : idler_step c signal cs pp = Panic s -> s = SiteNelderMeadUnwrap.
+  Proof.
+    unfold Config.idler_step. destruct (c_idler c) as [| ic].
+    - unfold idler_optimum. destruct (le_pump _ _); try discriminate. destruct (o_idler_theta K _ _ _ _); discriminate.
+    - destruct (beam_of_cfg o K _ ic cs) eqn:Hb; cbn [bind]; try discriminate.
+      intros H; inversion H; subst. exact (beam_of_cfg_panic _ _ _ _ Hb).
+  Qed.
+
   (* every panic of try_as_spdc is one of: the three unwraps of the signal<=pump error, or a failed simplex search *)
   Theorem panic_sites c s :
     try_as_spdc c = Panic s ->
@@ -263,64 +313,15 @@ Section Rules.
   Proof.
     unfold Config.try_as_spdc_steps.
     destruct (signal_step c) as [signal | |] eqn:Hs; cbn [bind]; try discriminate.
-    2:{ revert Hs. unfold Config.signal_step, beam_of_cfg, set_theta_external.
-        destruct (bc_theta_deg _), (bc_theta_ext_deg _); try discriminate.
-        destruct (o_snell_inv K _ _ _); try discriminate. intros H1 H2. inversion H1; inversion H2; subst. right; congruence. }
-    destruct (le_pump signal (cfg_pump c)) eqn:Hle.
-    - (* le: classify by the table *)
-      intros H. destruct s; try (right; reflexivity);
-        try (left; exists signal; repeat split; auto; fail).
-      exfalso. revert H. unfold Config.poling_step, poling_of_cfg.
-      destruct (c_pp c) as [| [| pu] a].
-      + cbn [bind fst]. unfold Config.theta_step, optimum_theta.
-        destruct (is_auto _); cbn [is_pol_off].
-        * destruct (o_snell_ext K _ _); cbn [bind]; try discriminate. fold (Config.cfg_pump o c). rewrite Hle. discriminate.
-        * cbn [bind]. unfold Config.idler_step, idler_optimum. destruct (c_idler c) as [| ic].
-          -- fold (Config.cfg_pump o c). rewrite Hle. discriminate.
-          -- unfold beam_of_cfg, set_theta_external. destruct (bc_theta_deg ic), (bc_theta_ext_deg ic); cbn [bind]; try discriminate.
-             destruct (o_snell_inv K _ _ _); cbn [bind]; discriminate.
-      + unfold optimum_poling_period. fold (Config.cfg_pump o c). rewrite Hle. discriminate.
-      + destruct (rj && neqb o pu (n0 o)); [discriminate |].
-        unfold compute_sign. fold (Config.cfg_pump o c). rewrite Hle. discriminate.
-    - (* not le: only the searches can panic *)
-      intros H. right. revert H. unfold Config.poling_step, poling_of_cfg.
-      destruct (c_pp c) as [| [| pu] a].
-      + cbn [bind fst]. unfold Config.theta_step, optimum_theta.
-        destruct (is_auto _); cbn [is_pol_off].
-        * destruct (o_snell_ext K _ _); cbn [bind]; [| intros H; inversion H; reflexivity].
-          fold (Config.cfg_pump o c). rewrite Hle.
-          destruct (o_nm_theta K _ _ _ _); cbn [bind]; [| intros H; inversion H; reflexivity].
-          unfold Config.idler_step, idler_optimum. destruct (c_idler c) as [| ic].
-          -- fold (Config.cfg_pump o c). rewrite Hle. destruct (o_idler_theta K _ _ _ _); discriminate.
-          -- unfold beam_of_cfg, set_theta_external. destruct (bc_theta_deg ic), (bc_theta_ext_deg ic); cbn [bind]; try discriminate.
-             destruct (o_snell_inv K _ _ _); cbn [bind]; [discriminate | intros H; inversion H; reflexivity].
-        * cbn [bind]. unfold Config.idler_step, idler_optimum. destruct (c_idler c) as [| ic].
-          -- fold (Config.cfg_pump o c). rewrite Hle. destruct (o_idler_theta K _ _ _ _); discriminate.
-          -- unfold beam_of_cfg, set_theta_external. destruct (bc_theta_deg ic), (bc_theta_ext_deg ic); cbn [bind]; try discriminate.
-             destruct (o_snell_inv K _ _ _); cbn [bind]; [discriminate | intros H; inversion H; reflexivity].
-      + unfold optimum_poling_period. fold (Config.cfg_pump o c). rewrite Hle.
-        destruct (neqb o _ _); cbn [bind fst].
-        * unfold Config.theta_step. destruct (is_auto _); cbn [is_pol_off bind]; try discriminate.
-          unfold Config.idler_step, idler_optimum. destruct (c_idler c) as [| ic].
-          -- fold (Config.cfg_pump o c). rewrite Hle. destruct (o_idler_theta K _ _ _ _); discriminate.
-          -- unfold beam_of_cfg, set_theta_external. destruct (bc_theta_deg ic), (bc_theta_ext_deg ic); cbn [bind]; try discriminate.
-             destruct (o_snell_inv K _ _ _); cbn [bind]; [discriminate | intros H; inversion H; reflexivity].
-        * destruct (o_nm_period K _ _ _); cbn [bind]; [| intros H; inversion H; reflexivity].
-          destruct (_ || _); cbn [bind fst]; try discriminate.
-          unfold Config.theta_step, poling_new.
-          destruct (is_auto _); [destruct (nltb o (n0 o) _); cbn [is_pol_off bind]; discriminate |].
-          cbn [bind]. unfold Config.idler_step, idler_optimum. destruct (c_idler c) as [| ic].
-          -- fold (Config.cfg_pump o c). rewrite Hle. destruct (o_idler_theta K _ _ _ _); discriminate.
-          -- unfold beam_of_cfg, set_theta_external. destruct (bc_theta_deg ic), (bc_theta_ext_deg ic); cbn [bind]; try discriminate.
-             destruct (o_snell_inv K _ _ _); cbn [bind]; [discriminate | intros H; inversion H; reflexivity].
-      + destruct (rj && neqb o pu (n0 o)); [discriminate |].
-        unfold compute_sign. fold (Config.cfg_pump o c). rewrite Hle. cbn [bind fst].
-        unfold Config.theta_step, poling_new.
-        destruct (is_auto _); [destruct (nltb o (n0 o) _); cbn [is_pol_off bind]; discriminate |].
-        cbn [bind]. unfold Config.idler_step, idler_optimum. destruct (c_idler c) as [| ic].
-        * fold (Config.cfg_pump o c). rewrite Hle. destruct (o_idler_theta K _ _ _ _); discriminate.
-        * unfold beam_of_cfg, set_theta_external. destruct (bc_theta_deg ic), (bc_theta_ext_deg ic); cbn [bind]; try discriminate.
-          destruct (o_snell_inv K _ _ _); cbn [bind]; [discriminate | intros H; inversion H; reflexivity].
+    2:{ intros H; inversion H; subst. right. exact (beam_of_cfg_panic _ _ _ _ Hs). }
+    destruct (poling_step c signal) as [[pp nfp] | |] eqn:Hp; cbn [bind fst snd]; try discriminate.
+    2:{ intros H; inversion H; subst. destruct (poling_step_panic _ _ _ Hp) as [-> | (Hle & [-> | ->])]; [right; reflexivity | |];
+          left; exists signal; repeat split; auto. }
+    destruct (theta_step c signal pp) as [cs | |] eqn:Ht; cbn [bind]; try discriminate.
+    2:{ intros H; inversion H; subst. destruct (theta_step_panic _ _ _ _ Ht) as [-> | (Hle & ->)]; [right; reflexivity |].
+        left; exists signal; repeat split; auto. }
+    destruct (idler_step c signal cs pp) as [[idler nfi] | |] eqn:Hi; cbn [bind fst snd]; try discriminate.
+    intros H; inversion H; subst. right. exact (idler_step_panic _ _ _ _ _ Hi).
   Qed.
 End Rules.
 
